@@ -336,8 +336,80 @@ Fixpoint dm_ops (ops : list op) (cb : option (list nat)) (rho : Dm X) : res (Dm 
   | o :: tl => match dm_step o cb rho with Err => Err | Ok rho' => dm_ops tl cb rho' end
   end.
 
-(* CircuitSimulator(qc, mode="density_matrix_simulator").run(state, cbits) *)
-Definition dm_run (alias : bool) (c : circ) (rho0 : Dm X) (cbarg : option nat) (h : heap)
+(* ---- density-matrix mode with classical control (fixes/C02-dm-classical-control.diff) ------------------------
+   When the circuit has a classically controlled gate (non-empty control list) AND a measurement with a
+   classical store, the ensemble is kept as a dict {tuple(cbits): unnormalised rho} (insertion ordered). *)
+Definition bmap := list (list nat * Dm X).
+
+(* branches[key] = branches.get(key, 0) + x *)
+Fixpoint badd (k : list nat) (x : Dm X) (m : bmap) : bmap :=
+  match m with
+  | [] => [(k, x)]
+  | (k', y) :: tl => if list_eq_dec Nat.eq_dec k' k then (k', dadd X y x) :: tl else (k', y) :: badd k x tl
+  end.
+
+(* new_cbits = list(cbits); new_cbits[classical_store] = i *)
+Definition bkey (store : option nat) (b : bool) (k : list nat) : res (list nat) :=
+  match store with
+  | None => Ok k
+  | Some c => match upd_nth k c (Nat.b2n b) with Some k' => Ok k' | None => Err end
+  end.
+
+(* what outcome b of one branch adds: nothing when the outcome is discarded, else (new key, p * rho_b) *)
+Definition bcontrib (q : Qb X) (store : option nat) (kx : list nat * Dm X) (b : bool) : res bmap :=
+  match dmeas_out q (snd kx) b with
+  | None => Ok []
+  | Some (s, p) => match bkey store b (fst kx) with Err => Err | Ok k' => Ok [(k', dscale X p s)] end
+  end.
+
+Fixpoint bcontribs (q : Qb X) (store : option nat) (m : bmap) : res bmap :=
+  match m with
+  | [] => Ok []
+  | kx :: tl =>
+    match bcontrib q store kx false, bcontrib q store kx true, bcontribs q store tl with
+    | Ok a, Ok b, Ok c => Ok (a ++ b ++ c)
+    | _, _, _ => Err
+    end
+  end.
+
+Definition bmerge (cl : bmap) : bmap := fold_left (fun a kv => badd (fst kv) (snd kv) a) cl [].
+
+Fixpoint bgate (g : Gt X) (cc : list nat) (v : N) (m : bmap) : res bmap :=
+  match m with
+  | [] => Ok []
+  | (k, x) :: tl =>
+    match check_cc cc v (Some k), bgate g cc v tl with
+    | Ok f, Ok tl' => Ok ((k, if f then dgate X g x else x) :: tl')
+    | _, _ => Err
+    end
+  end.
+
+Definition dm_bstep (o : op) (m : bmap) : res bmap :=
+  match o with
+  | OMeas q store => match bcontribs q store m with Err => Err | Ok cl => Ok (bmerge cl) end
+  | OGate g None => Ok (map (fun kx => (fst kx, dgate X g (snd kx))) m)
+  | OGate g (Some (cc, v)) => bgate g cc v m
+  end.
+
+Fixpoint dm_bops (ops : list op) (m : bmap) : res bmap :=
+  match ops with
+  | [] => Ok m
+  | o :: tl => match dm_bstep o m with Err => Err | Ok m' => dm_bops tl m' end
+  end.
+
+(* self._state = sum(branches.values()); an empty dict gives the int 0, which run() cannot return *)
+Definition bsum (m : bmap) : res (Dm X) :=
+  match map snd m with
+  | [] => Err
+  | v :: tl => Ok (fold_left (dadd X) tl v)
+  end.
+
+Definition cc_truthy (o : op) : bool := match o with OGate _ (Some (_ :: _, _)) => true | _ => false end.
+Definition has_store (o : op) : bool := match o with OMeas _ (Some _) => true | _ => false end.
+Definition dm_branching (ops : list op) : bool := existsb cc_truthy ops && existsb has_store ops.
+
+(* the code of the tree BEFORE that fix: conditions tested against the initial register *)
+Definition dm_run_orig (alias : bool) (c : circ) (rho0 : Dm X) (cbarg : option nat) (h : heap)
   : res (heap * (Dm X * F X * option nat)) :=
   match initialize alias (c_ncb c) cbarg h with
   | Err => Err
@@ -348,6 +420,30 @@ Definition dm_run (alias : bool) (c : circ) (rho0 : Dm X) (cbarg : option nat) (
       match dm_ops (c_ops c) cbv rho0 with
       | Err => Err
       | Ok rho => Ok (h1, (rho, f1 X, cb))
+      end
+    end
+  end.
+
+(* CircuitSimulator(qc, mode="density_matrix_simulator").run(state, cbits) *)
+Definition dm_run (alias : bool) (c : circ) (rho0 : Dm X) (cbarg : option nat) (h : heap)
+  : res (heap * (Dm X * F X * option nat)) :=
+  match initialize alias (c_ncb c) cbarg h with
+  | Err => Err
+  | Ok (h1, cb) =>
+    match (match cb with None => Ok None | Some r => match hget h1 r with Some l => Ok (Some l) | None => Err end end) with
+    | Err => Err
+    | Ok cbv =>
+      match cbv, dm_branching (c_ops c) with
+      | Some cb0, true =>
+        match dm_bops (c_ops c) [(cb0, rho0)] with
+        | Err => Err
+        | Ok m => match bsum m with Err => Err | Ok rho => Ok (h1, (rho, f1 X, cb)) end
+        end
+      | _, _ =>
+        match dm_ops (c_ops c) cbv rho0 with
+        | Err => Err
+        | Ok rho => Ok (h1, (rho, f1 X, cb))
+        end
       end
     end
   end.
